@@ -21,11 +21,32 @@ def is_connectable(obj: Any) -> bool:
     return getattr(obj, "__connectable__", False)
 
 
+def _owner(conn: "Connectable") -> Any:
+    """The Module which `conn` - a reference or bundle instance - is part of, if it is known."""
+    # (Dispatched on type names: attribute look-ups on a bundle reference would create further references.)
+    kind = type(conn).__name__
+    if kind == "PortRef":  # Port references belong where their Instance does
+        return getattr(conn.inst, "_parent_module", None)
+    if kind == "BundleRef":  # Bundle references belong where their root BundleInstance does
+        return getattr(conn.root(), "_parent_module", None)
+    if kind == "BundleInstance":
+        return conn.__dict__.get("_parent_module", None)
+    return None
+
+
 def connected_ports(conn: "Connectable") -> List["PortRef"]:
     """The port references connected to `conn`, in a reproducible order.
     The `_connected_ports` of each connectable are a set of objects hashed by memory address,
-    whose iteration order varies from process to process."""
-    return sorted(conn._connected_ports, key=lambda p: (p.inst.name or "", p.portname))
+    whose iteration order varies from process to process.
+
+    Only ports of Instances in the same Module as `conn` are returned. `_connected_ports` also remembers
+    Instances which are not - or no longer - attributes of that Module: never added, displaced by re-using their name,
+    the scalar Instance an array was made of, or (erroneously) Instances of another Module. Those are not ours to rewire."""
+    owner = _owner(conn)
+    ports = conn._connected_ports
+    if owner is not None:
+        ports = [p for p in ports if getattr(p.inst, "_parent_module", None) is owner]
+    return sorted(ports, key=lambda p: (p.inst.name or "", p.portname))
 
 
 # Union of types using `connectable`
